@@ -37,6 +37,7 @@ class RxParser:
         self.s = src
         self.i = 0
         self.verbose = verbose
+        self.stars: List[Any] = []  # body of every `*` / `+` repetition (for the ambiguity query)
 
     def peek(self) -> Optional[str]:
         if self.verbose:
@@ -66,6 +67,8 @@ class RxParser:
             self.i += 1
             if a is None:
                 raise Inconclusive("regex: quantifier on a zero-width assertion")
+            if q in "*+":
+                self.stars.append(a)
             a = {"*": z3.Star, "+": z3.Plus, "?": z3.Option}[q](a)
             if self.i < len(self.s) and self.s[self.i] == "?":  # lazy: same language
                 self.i += 1
@@ -151,4 +154,29 @@ def included(r: Any, safe: Any, maxlen: int = 10, timeout_ms: int = 30000) -> Tu
     res = str(sv.check())
     if res == "sat":
         return res, sv.model()[s].as_string()
+    return res, None
+
+
+def star_bodies(src: str, verbose: bool = True) -> List[Any]:
+    p = RxParser(src, verbose)
+    p.alt()
+    return p.stars
+
+
+def ambiguous_star(body: Any, maxlen: int = 8, timeout_ms: int = 30000) -> Tuple[str, Optional[str]]:
+    """Can the body A of a repetition A* match the empty word, or one word both in a single round and split over
+    several rounds (w in A and w in A.A+)?  Either makes a backtracking matcher try exponentially many splits on
+    an input that finally fails.  ('unsat', None) = no such word up to maxlen."""
+    w = z3.String("w")
+    sv = z3.Solver()
+    sv.set("timeout", timeout_ms)
+    sv.add(z3.Length(w) <= maxlen, z3.InRe(w, body), z3.Or(z3.Length(w) == 0, z3.InRe(w, z3.Concat(body, z3.Plus(body)))))
+    sv.push()
+    sv.add(z3.InRe(w, z3.Star(z3.Range("a", "z"))))  # a readable witness if there is one
+    if str(sv.check()) == "sat":
+        return "sat", sv.model()[w].as_string()
+    sv.pop()
+    res = str(sv.check())
+    if res == "sat":
+        return res, sv.model()[w].as_string()
     return res, None
